@@ -412,3 +412,62 @@ def deep_inputs(sizes=(100, 1000)):
     out.append(("hugewg", "@compute @workgroup_size(4294967295, 4294967295, 4294967295) fn main() {}"))
     out.append(("longident", "fn " + "a" * 60000 + "() {}"))
     return [(n, s) for n, s in out if len(s.encode("utf-8")) <= 65536]
+
+
+# ---------------------------------------------------------------- systematic families (C10 / C19)
+
+MULTIBYTE_TAILS = ["é", "π", "名", "\U0001F600", "\u00a0", "\u2028"]
+
+
+def eof_edge_inputs():
+    """Every number/identifier/operator form immediately followed by a multi-byte character (or an invalid
+    byte) that is the LAST thing in the source, and every prefix of a short feature-rich text: look-ahead at
+    the end of input."""
+    out = []
+    for n in NUMBERS + ["a", "_", "0x", "1.", "1e", "1l", "/", "/*", "//", "<", ">", "-", "&", "|", "*"]:
+        for t in MULTIBYTE_TAILS:
+            out.append(("const a = " + n + t).encode("utf-8"))
+            out.append((n + t).encode("utf-8"))
+        out.append(("const a = " + n).encode("utf-8") + b"\xc3")      # truncated UTF-8 sequence
+        out.append(("const a = " + n).encode("utf-8") + b"\xff")
+    text = "fn é(a: vec2<f32>) -> f32 { /* c /* n */ é */ let x = 1.5e+3f >> 2u; // z\n return a.x<=0x1Fu; }\n"
+    b = text.encode("utf-8")
+    for k in range(len(b) + 1):
+        out.append(b[:k])
+    return out
+
+
+CONST_CONTEXTS = [
+    "const X = %s;\n@compute @workgroup_size(1) fn main() { _ = X; }",
+    "var<private> a: array<i32, %s>;\n@compute @workgroup_size(1) fn main() { _ = a[0]; }",
+    "const_assert (%s) == 1;\n@compute @workgroup_size(1) fn main() {}",
+    "@compute @workgroup_size(%s) fn main() {}",
+    "@compute @workgroup_size(1) fn main() { var s = 0; switch 1 { case %s: { s = 1; } default: {} } }",
+    "const N = 3;\nconst M = %s;\n@compute @workgroup_size(1) fn main() { _ = M; }",
+    "@compute @workgroup_size(1) fn main() { const c = %s; let y = c; }",
+    "override o: i32 = %s;\n@compute @workgroup_size(1) fn main() { _ = o; }",
+]
+CONST_OPERANDS = ["0", "1", "-1", "2", "31", "32", "33", "63", "64", "65", "-2147483648", "2147483647", "4294967295", "4294967296",
+                  "9223372036854775807", "(N - 4)", "1u", "0u", "4294967295u", "1i", "-1i", "1.5", "0.0", "1e38", "true"]
+CONST_OPS = ["+", "-", "*", "/", "%", "<<", ">>", "&", "|", "^", "==", "<", "&&"]
+CONST_FUNCS = ["abs(%s)", "-(%s)", "~(%s)", "countOneBits(%s)", "u32(%s)", "i32(%s)", "f32(%s)", "min(%s, 1)", "clamp(%s, 0, 1)",
+               "firstLeadingBit(%s)", "extractBits(%s, 31u, 2u)", "pow(2.0, f32(%s))", "vec2(%s).x", "select(1, 2, bool(%s))"]
+
+
+def const_expr_inputs(rng, n):
+    """Constant expressions over boundary operands in every compile-time context (array size, const_assert,
+    workgroup_size, case selector, module/local const, override initialiser)."""
+    out = []
+    for _ in range(n):
+        ctx = rng.choice(CONST_CONTEXTS)
+        a, b = rng.choice(CONST_OPERANDS), rng.choice(CONST_OPERANDS)
+        if rng.chance(1, 4):
+            e = rng.choice(CONST_FUNCS) % a
+        else:
+            e = "%s %s %s" % (a, rng.choice(CONST_OPS), b)
+            if rng.chance(1, 4):
+                e = "(%s) %s %s" % (e, rng.choice(CONST_OPS), rng.choice(CONST_OPERANDS))
+        if "(N - 4)" in e and "const N" not in ctx:
+            e = e.replace("(N - 4)", "(3 - 4)")
+        out.append((ctx % e).encode("utf-8"))
+    return out
